@@ -336,3 +336,50 @@ func factsStatusCallback() {
 	defStrList("statusCallbackSyncCalls", syncCalls)
 	defStrList("statusCallbackGoCalls", goCalls)
 }
+
+// factsTransport: the upstream request is performed by net/http's own Transport.  A RoundTripper of pike's own around
+// it (a retry, a redirect-following http.Client, …) changes how often and where a request reaches the origin; listed are
+// the RoundTrip methods declared in the module's non-test files and the http.Client values built in the request path.
+func factsTransport() {
+	section("RoundTripper implementations and http.Client values in the module's non-test files")
+	var rts, clients []string
+	dirs := []string{".", "app", "cache", "compress", "config", "location", "server", "store", "upstream", "util", "hooks", "schedule", "log"}
+	for _, d := range dirs {
+		ents, err := os.ReadDir(filepath.Join(repo, d))
+		if err != nil {
+			continue
+		}
+		for _, e := range ents {
+			n := e.Name()
+			if e.IsDir() || !strings.HasSuffix(n, ".go") || strings.HasSuffix(n, "_test.go") {
+				continue
+			}
+			rel := filepath.Join(d, n)
+			f := parse(rel)
+			if f == nil {
+				continue
+			}
+			ast.Inspect(f, func(x ast.Node) bool {
+				switch y := x.(type) {
+				case *ast.FuncDecl:
+					if y.Recv != nil && y.Name.Name == "RoundTrip" {
+						rts = append(rts, fmt.Sprintf("%s:%s", rel, nsrc(y.Recv.List[0].Type)))
+					}
+				case *ast.CompositeLit:
+					if t := nsrc(y.Type); t == "http.Client" && d != "." && d != "config" {
+						clients = append(clients, fmt.Sprintf("%s:%d", rel, fset.Position(y.Pos()).Line))
+					}
+				case *ast.SelectorExpr:
+					if s := nsrc(y); (s == "http.DefaultClient" || s == "http.Get" || s == "http.Post") && (d == "upstream" || d == "server" || d == "cache") {
+						clients = append(clients, fmt.Sprintf("%s:%d:%s", rel, fset.Position(y.Pos()).Line, s))
+					}
+				}
+				return true
+			})
+		}
+	}
+	sort.Strings(rts)
+	sort.Strings(clients)
+	defStrList("roundTripperImpls", rts)
+	defStrList("requestPathHTTPClients", clients)
+}
